@@ -85,8 +85,11 @@ func (ue *ChfUe) init() {
 		Handler:            ue.RatingMux,
 		MaxRetransmits:     3,
 		RetransmitInterval: time.Second,
-		EnableWatchdog:     true,
-		WatchdogInterval:   5 * time.Second,
+		// a connection serves one request and is closed after 5 s at the latest: a device watchdog
+		// (first DWR after 5 s) has nothing to watch, and its goroutine is never told about the close of a
+		// connection on which no answer was read, so it would stay behind for every request that times out
+		EnableWatchdog:   false,
+		WatchdogInterval: 5 * time.Second,
 		AuthApplicationID: []*diam.AVP{
 			// Advertise support for credit control application
 			diam.NewAVP(avp.AuthApplicationID, avp.Mbit, 0, datatype.Unsigned32(4)), // RFC 4006
@@ -99,8 +102,11 @@ func (ue *ChfUe) init() {
 		Handler:            ue.AbmfMux,
 		MaxRetransmits:     3,
 		RetransmitInterval: time.Second,
-		EnableWatchdog:     true,
-		WatchdogInterval:   5 * time.Second,
+		// a connection serves one request and is closed after 5 s at the latest: a device watchdog
+		// (first DWR after 5 s) has nothing to watch, and its goroutine is never told about the close of a
+		// connection on which no answer was read, so it would stay behind for every request that times out
+		EnableWatchdog:   false,
+		WatchdogInterval: 5 * time.Second,
 		AuthApplicationID: []*diam.AVP{
 			// Advertise support for credit control application
 			diam.NewAVP(avp.AuthApplicationID, avp.Mbit, 0, datatype.Unsigned32(4)), // RFC 4006
